@@ -550,3 +550,5 @@ def run(ctx):
     tables.flag_predicates(r11, ctx.facts)
     from .. import boundaries as _b
     _b.check_predicates(ctx, 'C12.RP', 'C12')
+    from .. import boundaries as _b
+    _b.check_updates(ctx, 'C12.RU', 'C12')
